@@ -1,3 +1,4 @@
+import GPy.C01.Gen
 import GPy.C06.Gen
 import GPy.C20.Gen
 import GPy.C03.Gen
@@ -21,5 +22,6 @@ def main (args : List String) : IO UInt32 := do
     | "C03" => GPy.C03.genMain tier seed; return 0
     | "C20" => GPy.C20.genMain tier seed; return 0
     | "C06" => GPy.C06.genMain tier seed; return 0
+    | "C01" => GPy.C01.genMain tier seed; return 0
     | _ => IO.eprintln s!"unknown property {prop}"; return 2
   | _ => IO.eprintln "usage: gpymodel <Cxx> <quick|thorough> <seed>"; return 2
